@@ -9,6 +9,7 @@ F(a, b, c, p) == [fcpu |-> a, fmem |-> b, fsto |-> c, ports |-> p]
 \* ---- small: the every-change configuration -------------------------------------------------
 S_Orders == {"o1", "o2"}
 S_Names == {"g1"}
+S_EventNames == {"g1", "g2"}
 S_ReqShapes == {
     <<U(3, 1, 1, 1, 1)>>,                      \* one unit, one endpoint; cpu 3 commits to 2 at level 2
     <<U(1, 2, 4, 0, 2)>>,                      \* two replicas
@@ -24,6 +25,7 @@ S_AdoptChoices == { <<>> }
 \* ---- big: the thorough configuration ----------------------------------------------------------
 B_Orders == {"o1", "o2"}
 B_Names == {"g1", "g2"}
+B_EventNames == {"g1", "g2"}
 B_ReqShapes == {
     <<U(3, 1, 1, 1, 1)>>,
     <<U(1, 2, 4, 0, 3)>>,                      \* three replicas: must be spread over nodes
